@@ -98,6 +98,15 @@ func (b *rBoard) clone() *rBoard {
 		}
 		nb.Edges = append(nb.Edges, ne)
 	}
+	// a scenario/step is "the base plus its own changes": the base's globs keep acting on
+	// what the board adds
+	for _, g := range b.Globs {
+		ng := *g
+		ng.Scope = m[g.Scope]
+		if ng.Scope != nil {
+			nb.Globs = append(nb.Globs, &ng)
+		}
+	}
 	return nb
 }
 
@@ -220,7 +229,13 @@ func compareObjectsAt(h *hx.H, path string, want, got []flatObj, text string) {
 			h.Failf("board-label-differs", "board %s: object %s should have label %q, compiled %q\n%s", path, showPath(p), w.Label, g.Label, text)
 		}
 		if normAttrs(g.Attrs) != normAttrs(w.Attrs) {
-			h.Failf("board-attrs-differ", "board %s: object %s should have attributes {%s}, compiled {%s}\n%s", path, showPath(p), normAttrs(w.Attrs), normAttrs(g.Attrs), text)
+			sig := "board-attrs-differ"
+			if c15NestedGlobs {
+				sig = "board-attrs-differ:nested-board-with-globs"
+			} else if c15StepGlobs {
+				sig = "board-attrs-differ:steps-with-globs"
+			}
+			h.FailSoft(sig, "board %s: object %s should have attributes {%s}, compiled {%s}\n%s", path, showPath(p), normAttrs(w.Attrs), normAttrs(g.Attrs), text)
 		}
 	}
 	for p := range gm {
@@ -245,8 +260,28 @@ func compareEdgesAt(h *hx.H, path string, want, got []flatEdge, text string) {
 	}
 }
 
+var c15NestedGlobs, c15StepGlobs bool
+
 func checkC15(h *hx.H, c c15Case) {
 	text := c.Root.print("")
+	c15NestedGlobs = false
+	hasGlob := false
+	for _, st := range c.Root.Stmts {
+		if st.Kind == "glob" || st.Kind == "edgeglob" {
+			hasGlob = true
+		}
+	}
+	c15StepGlobs = false
+	for _, d := range c.Root.Decls {
+		if d.Kind == "steps" && hasGlob {
+			c15StepGlobs = true
+		}
+		for _, bb := range d.Bodies {
+			if len(bb.Decls) > 0 && hasGlob {
+				c15NestedGlobs = true
+			}
+		}
+	}
 	want := evalBody(h, &c.Root, newBoard())
 	g, err := compileText(text)
 	if err != nil {
@@ -289,20 +324,62 @@ func sortStrings(s []string) {
 	}
 }
 
-func genBoardBody(t *rapid.T, depth int, maxStmts int) boardBody {
+func genBoardBody(t *rapid.T, depth int, maxStmts int, noNull bool) boardBody {
 	p := genProgram(t, maxStmts, false)
 	var stmts []Stmt
+	withGlobs := depth == 0 && gen.Pick(t, "withglobs", 1, 1) == 1
+	if withGlobs {
+		noNull = true // whether a glob is applied again to an object re-created after null is not stated (d2 does not)
+	}
 	for _, s := range p.Stmts {
 		if s.Kind == "conn" && s.Under {
 			s.Under = false // keep helper maps out of board bodies
 		}
+		if noNull && (s.Kind == "null" || (s.Kind == "attr" && s.Value == nil)) {
+			// (`*.style.fill: red` + `a.style.fill: null` creating a: compile error about an empty
+			// `style`, a glob matter outside this property)
+			continue
+		}
 		stmts = append(stmts, s)
 	}
+	// root-scope globs (path-prefixed form: the in-map form has a known limitation, C12)
+	if withGlobs {
+		ng := rapid.IntRange(1, 2).Draw(t, "nglobs")
+		for i := 0; i < ng; i++ {
+			pos := rapid.IntRange(0, len(stmts)).Draw(t, "gpos")
+			var gs Stmt
+			if rapid.Bool().Draw(t, "edgeglob") {
+				v := attrValue(t, "style.stroke")
+				gs = Stmt{Kind: "edgeglob", Key: "style.stroke", Value: &v}
+			} else {
+				k := rapid.SampledFrom([]string{"style.fill", "shape", "style.opacity"}).Draw(t, "gk")
+				v := attrValue(t, k)
+				gs = Stmt{Kind: "glob", Pattern: rapid.SampledFrom([]string{"*", "**", "a*", "*b"}).Draw(t, "gpat"), Key: k, Value: &v}
+			}
+			dup := false
+			for _, e := range stmts {
+				if e.Kind == gs.Kind && e.Key == gs.Key && e.Pattern == gs.Pattern && e.Value != nil && *e.Value == *gs.Value {
+					dup = true // a textually repeated glob is dropped as a duplicate (C12 …:identical-glob-repeated)
+				}
+			}
+			if dup {
+				continue
+			}
+			stmts = append(stmts[:pos:pos], append([]Stmt{gs}, stmts[pos:]...)...)
+		}
+	}
 	b := boardBody{Stmts: stmts}
-	if depth >= 2 {
+	if depth >= 2 || (depth >= 1 && noNull) {
+		// with globs in play boards are not nested: a glob applied inside a nested board first is
+		// then skipped for the enclosing board (KNOWN_FINDINGS C15 …:nested-board-with-globs)
 		return b
 	}
 	kinds := []string{"layers", "scenarios", "steps"}
+	if noNull {
+		// glob applications made inside a step are remembered for the board that declares the
+		// steps (KNOWN_FINDINGS C15 …:steps-with-globs): steps stay out of glob programs
+		kinds = kinds[:2]
+	}
 	for _, k := range kinds {
 		if gen.Pick(t, "hasboards_"+k, 2, 1) == 0 && !(depth == 0 && k == "scenarios") {
 			continue
@@ -315,7 +392,7 @@ func genBoardBody(t *rapid.T, depth int, maxStmts int) boardBody {
 				name = fmt.Sprint(i + 1)
 			}
 			d.Names = append(d.Names, name)
-			bb := genBoardBody(t, depth+1, 6)
+			bb := genBoardBody(t, depth+1, 6, noNull)
 			d.Bodies = append(d.Bodies, &bb)
 		}
 		b.Decls = append(b.Decls, d)
@@ -324,7 +401,7 @@ func genBoardBody(t *rapid.T, depth int, maxStmts int) boardBody {
 }
 
 func genC15(t *rapid.T) c15Case {
-	return c15Case{Root: genBoardBody(t, 0, 8)}
+	return c15Case{Root: genBoardBody(t, 0, 8, false)}
 }
 
 func coreC15() []c15Case {
